@@ -228,3 +228,162 @@ Theorem existence_cache_never_panics : forall size dur ops, (1 <= size)%nat ->
   lpanic (elru (cache (snd (erun size dur ops (mkest ec_empty 0%N []))))) = false.
 Proof. exact ec_no_panic. Qed.
 Print Assumptions existence_cache_never_panics.
+
+(** ** The monitor used on implementation traces never fires on the model.
+
+    [mon17 inp obs] (Run/R17Proofs.v: the dispatch of [judge17] on the case
+    kind, applied to the monitors [mon_seq], [mon_ec], [mon_conc], [mon_lru]
+    of Run/R17.v, Run/R17Conc.v) is the property as a decidable check on what
+    the implementation was observed to do; [run17 inp] is the model's output
+    ([run_seq], [run_ec], [run_lru]); [agree17 inp obs] is the agreement bit of
+    [judge17].
+
+    SEQUENTIAL case kinds (0: read-caching / read-fallback composites, 1:
+    existence cache, 3: LRU set): for EVERY input - no well-formedness
+    hypothesis at all: decoders clamp, the monitors compare decoded values with
+    values the model encoded itself, an existence cache of size 0 panics in the
+    model at its first recording and the monitors do not judge panics - all
+    clauses (1-7, 11-13, 14) are silent on the model's output, which is the
+    only observation the judge accepts for these kinds.
+    For kind 2, [run17] is the placeholder [L []] (there is no single model
+    output); the statements about kind 2 follow below. *)
+From BBS Require Import Run.R17Conc Run.R17 Run.R17Proofs.
+
+Theorem monitor_silent_on_model : forall inp, mon17 inp (run17 inp) = [].
+Proof. exact mon17_silent_on_model. Qed.
+Print Assumptions monitor_silent_on_model.
+
+Theorem monitor_silent_on_agreeing_observation_sequential : forall inp obs,
+  sx_Z (sx_nth inp 0) <> 2 -> agree17 inp obs = true -> mon17 inp obs = [].
+Proof. exact mon17_silent_on_agreeing_sequential. Qed.
+Print Assumptions monitor_silent_on_agreeing_observation_sequential.
+
+Theorem model_output_is_accepted : forall inp,
+  sx_Z (sx_nth inp 0) = 0 \/ sx_Z (sx_nth inp 0) = 1 \/ sx_Z (sx_nth inp 0) = 3 ->
+  agree17 inp (run17 inp) = true.
+Proof. exact model_output_agrees. Qed.
+Print Assumptions model_output_is_accepted.
+
+(** Non-vacuity: a read-fallback history over a deduplicating local
+    replicator (a read-through, a read with an injected sink failure, an
+    upload, a FindMissing, a NOT_FOUND); an existence-cache history of size 1
+    and duration 5 (hit, expiry, failing backend, direct calls); an LRU
+    history. *)
+Example monitor_silent_examples :
+  (let inp := L [A 0; A 1; L [A 2; A 0]; L [A 0]; L [A 1; A 2];
+                 L [L [A 0; A 1; L []]; L [A 0; A 2; L [A 0; A 0; A 14]]; L [A 1; A 3; L []];
+                    L [A 2; L [A 0; A 3; A 4; A 2]; L []]; L [A 0; A 4; L []]]] in
+   map (fun o => sx_Z (sx_nth o 0)) (sx_list (run17 inp)) = [0; 14; 0; 0; 5]
+   /\ sx_nth (sx_nth (run17 inp) 3) 1 = L [A 4]
+   /\ agree17 inp (run17 inp) = true /\ mon17 inp (run17 inp) = [])
+  /\ (let inp := L [A 1; A 1; A 5;
+                L [L [A 3; A 0]; L [A 3; A 1]; L [A 0; L [A 0]; A 0; A 0; A 0]; L [A 4; A 0];
+                   L [A 0; L [A 0]; A 5; A 0; A 0]; L [A 0; L [A 0]; A 1; A 0; A 0];
+                   L [A 0; L [A 0; A 1]; A 0; A 0; A 14]; L [A 1; L [A 0; A 1]; A 0]; L [A 2; L [A 1]; A 0]]] in
+      map (fun o => sx_nth o 2) (sx_list (run17 inp)) =
+        [L []; L []; L [L [A 0]]; L []; L [L []]; L [L [A 0]]; L [L [A 0; A 1]]; L []; L []]
+      /\ agree17 inp (run17 inp) = true /\ mon17 inp (run17 inp) = [])
+  /\ (let inp := L [A 3; L [L [A 0; A 5]; L [A 0; A 7]; L [A 2]; L [A 1; A 5]; L [A 2]; L [A 3]; L [A 2]]] in
+      run17 inp = L [L [A 5; A 7; A 5]] /\ agree17 inp (run17 inp) = true /\ mon17 inp (run17 inp) = []).
+Proof. exact (conj seq_example (conj ec_example lru_example)). Qed.
+
+(** CONCURRENT case kind (2: deduplicating / concurrency-limiting / queued
+    replicator under gated schedules).  The judge accepts a SET of
+    observations: every model state reachable by running the lock-protected
+    sections to quiescence in any order that shows the observed statuses,
+    maxima and sink contents.  [mon_conc] is, clause group by clause group,
+    [mon_conc_counts ++ mon_conc_success]:
+
+    - clauses 21/22/23 (more concurrent copies per key than one / overall than
+      the configured limit / than one) are silent on EVERY observation the
+      judge accepts, for every input.  (Proof: every state the judge keeps is
+      reachable in the transition system, Run/R17Proofs.v; the maxima the
+      harness reports are bounded on every reachable state,
+      Compose/MonSilentRepl.v, from the invariants behind
+      [dedup_at_most_one_copy_per_key], [limit_at_most_k],
+      [queued_at_most_one].)
+    - clauses 24/25 (success without justification) are evaluated on the
+      harness's event log (obs[4]).  The judge's agreement test does not read
+      the log and the model has no counterpart of it, so "accepted => silent"
+      is not a theorem for them: [monitor_domain_boundary] below gives an
+      accepted observation with a made-up log on which clause 24 fires.  For
+      these clauses the chain is closed only at the model level, by
+      [success_justified] above (on the model's own history variables). *)
+Theorem monitor_conc_is_counts_then_success : forall inp obs,
+  mon_conc inp obs = if sx_eqb obs (L [A (-1)]) then [] else mon_conc_counts inp obs ++ mon_conc_success inp obs.
+Proof. exact mon_conc_split. Qed.
+Print Assumptions monitor_conc_is_counts_then_success.
+
+(** Hypothesis-free form: [run_conc] is the agreement test [judge_conc] uses. *)
+Theorem monitor_counts_silent_whenever_run_conc_accepts : forall inp obs,
+  fst (run_conc inp obs) = true -> mon_conc_counts inp obs = [].
+Proof. exact conc_counts_silent_run_conc. Qed.
+Print Assumptions monitor_counts_silent_whenever_run_conc_accepts.
+
+(** The same through [judge17]'s agreement bit ("kind = 2" only selects the
+    branch of [judge17] in which that bit is [run_conc]'s). *)
+Theorem monitor_silent_on_agreeing_observation_concurrent_counts : forall inp obs,
+  sx_Z (sx_nth inp 0) = 2 -> agree17 inp obs = true -> mon_conc_counts inp obs = [].
+Proof. exact conc_counts_silent_on_agreeing. Qed.
+Print Assumptions monitor_silent_on_agreeing_observation_concurrent_counts.
+
+(** The agreement test for kind 2 is a function of obs[0..3] (statuses per
+    round, maxima, sink contents): the event log obs[4], on which the clauses
+    24/25 are evaluated, is not constrained by it. *)
+Theorem judge_agreement_ignores_event_log : forall inp o0 o1 o2 o3 lg lg',
+  sx_Z (sx_nth inp 0) = 2 ->
+  agree17 inp (L [o0; o1; o2; o3; lg]) = agree17 inp (L [o0; o1; o2; o3; lg']).
+Proof. exact agreement_ignores_log. Qed.
+Print Assumptions judge_agreement_ignores_event_log.
+
+(** The bound behind it, for every trace of the transition system. *)
+Theorem reported_maxima_bounded : forall m sets source sink tr s,
+  run m (init_state sets source sink) tr = Some s ->
+  match m with
+  | MDedup => (maxkey s <= 1)%nat
+  | MLimit k => (maxall s <= k)%nat
+  | MQueued _ _ => (maxall s <= 1)%nat
+  end.
+Proof. exact Compose.MonSilentRepl.maxima_bounded. Qed.
+Print Assumptions reported_maxima_bounded.
+
+(** Domain boundary.  The sequential statement has no hypothesis.  The only
+    hypothesis anywhere, "kind <> 2" in
+    [monitor_silent_on_agreeing_observation_sequential], is necessary: a
+    kind-2 input, an observation the judge accepts (no events, one caller not
+    started) and a made-up log "caller 0 starts, caller 0 returns OK" - clause
+    24 fires.  The harness derives the log from the real run and cannot
+    produce this pair; the point is that agreement does not constrain the log.
+    Also shown: an existence cache of size 0 (rejected by harness/c17.go, which
+    demands 1..64) is inside the domain of the theorem - the model panics at
+    the first recording and the monitor does not judge panics. *)
+Example monitor_domain_boundary :
+  (let inp := L [A 2; L [A 0]; L [L [A 0]]; L [A 0]; L []; L []] in
+   let obs := L [L []; A 0; A 0; L []; L [L [A 0; A 0; A 0]; L [A 3; A 0; A 0; A 0]]] in
+   agree17 inp obs = true /\ mon17 inp obs = [24] /\ mon_conc_counts inp obs = [])
+  /\ (let inp := L [A 1; A 0; A 5; L [L [A 3; A 0]; L [A 0; L [A 0]; A 0; A 0; A 0]]] in
+      run17 inp = L [A (-1)] /\ mon17 inp (run17 inp) = [])
+  /\ (* [model_output_is_accepted] needs a kind in {0, 1, 3}: an unknown kind is
+        never accepted, and kind 2 has only the placeholder output *)
+     (agree17 (L [A 4]) (run17 (L [A 4])) = false
+      /\ let inp := L [A 2; L [A 0]; L [L [A 0]]; L [A 0]; L []; L [L [A 0; A 0]]] in
+         agree17 inp (run17 inp) = false).
+Proof.
+  refine (conj conc_success_clauses_not_determined_by_agreement (conj ec_size0_example _)).
+  vm_compute. split; reflexivity.
+Qed.
+
+(** Non-vacuity for kind 2: two callers of the deduplicating replicator for
+    the same object, the second waits while the first copies; the judge
+    accepts the observation and no clause fires. *)
+Example monitor_silent_example_concurrent :
+  let inp := L [A 2; L [A 0]; L [L [A 0]; L [A 0]]; L [A 0]; L [];
+                L [L [A 0; A 0]; L [A 0; A 1]; L [A 1; A 0; A 0]; L [A 1; A 0; A 0]; L [A 1; A 0; A 0]]] in
+  let obs := L [L [L [L [A 1; A 0; A 2; L [A 0]]; L [A 0]];
+                   L [L [A 1; A 0; A 2; L [A 0]]; L [A 2]];
+                   L [L [A 1; A 1; A 0; L [A 0]]; L [A 2]];
+                   L [L [A 1; A 0; A 1; L [A 0]]; L [A 2]];
+                   L [L [A 3; A 0]; L [A 3; A 0]]];
+                A 1; A 1; L [A 0]; L []] in
+  agree17 inp obs = true /\ mon17 inp obs = [].
+Proof. exact conc_example. Qed.
